@@ -131,6 +131,7 @@ def py_issue(w, cfg, op, call):
             return ("ok", int(ret))
         except Exception as e:
             return ("err", "%s: %s" % (type(e).__name__, str(e)[:200]))
+    g = d = None
     try:
         with quiet_fds():
             form = op.get("argform", "plain")
@@ -182,6 +183,12 @@ def py_issue(w, cfg, op, call):
                 elif form == "int64":
                     g, d = g.astype(np.int64), d.astype(np.int64)
                 ret = w.rf_write_blocks(arr, g, d)
+        if form == "reuse":
+            # the application's ONE buffer: once the call has returned it is filled with the next data (here: a
+            # pattern).  What was accepted must have been taken over by then; the index arrays likewise
+            for obj in (arr, g, d):
+                if isinstance(obj, np.ndarray) and obj.flags.writeable and obj.flags.c_contiguous and obj.dtype.kind != "O":
+                    obj.view(np.uint8).reshape(-1)[...] = 0xA5
         return ("ok", int(ret))
     except Exception as e:  # the contract is "rejected with an error": any type
         return ("err", "%s: %s" % (type(e).__name__, str(e)[:200]))
